@@ -11,11 +11,11 @@ Request = the `run` request of harness/runlib.py (task table, oracle, flags, `tr
   "mixed":  [item...]                merged chronological observation: ["start",n,w] ["end",n,w] ["td",n,who] ["tderr",n,who]
                                      (who = worker index, or -1 for the main thread / main process)
   "nworkers": k                      number of worker entities (process runner)
-  "procFixed": bool                  model variant with the repair of the open finding process-teardown-failure
+  "pinnedProcess": bool              model variant before "fix: teardown failure on a sub-process is reported ..." (default: HEAD)
 Answer: {"monitor": {"C11_lazy", "C11_setup_before", "C11_td_exact", "C11_td_after"},
          "model_td": the teardown log of the model for the observed start order (same item format; process runner:
                      worker by worker), "model_crash": the model's main process dies (failing teardown in a worker
-                     process at HEAD), "justified": the tasks the laziness monitor accepts as needed}
+                     process, pinned variant only), "justified": the tasks the laziness monitor accepts as needed}
 
 `model_td` is `teardownRun` / `workerTeardown` over the start order — by `C11_teardown_shared` /
 `C11_teardown_process_exact` (Props/C11.lean) this IS the log of every complete run of the extended model that has these start events; that such a run of the model
@@ -54,12 +54,12 @@ def handle (j : Json) : Json :=
   | some tr, some mixed =>
     let starts := mixed.filterMap fun x => match x with | .ev e => some e | _ => none
     let tdlog := mixed.filterMap fun x => match x with | .td t => some t | _ => none
-    let v : Variant := { procFixed := jbool j "procFixed" }
+    let v : Variant := { pinnedProcess := jbool j "pinnedProcess" }
     let modelTd : List TdEv :=
       if inp.runner = .process then
         (List.range nW).flatMap fun w => workerTeardown v tdFail w (startOrderOf inp w starts.reverse)
       else teardownRun tdFail none (startOrder inp starts.reverse)
-    let modelCrash : Bool := inp.runner = .process && !v.procFixed &&
+    let modelCrash : Bool := inp.runner = .process && v.pinnedProcess &&
       (List.range nW).any fun w => (startOrderOf inp w starts.reverse).any tdFail
     let exact := monTdExact inp tdFail nW starts tdlog
     Json.mkObj [
